@@ -102,6 +102,11 @@ def main():
     deps = os.path.join(VERIF, '.deps')
     if os.path.isdir(deps):
         sys.path.insert(1, deps)
+    if not os.path.isdir(os.path.join(deps, 'mpmath')):
+        # setup_cmd installs mpmath into .deps; as a fallback the pure-python wheel can be imported in place (zipimport)
+        for w in glob.glob('/opt/veriftools/wheels/mpmath-*.whl'):
+            sys.path.append(w)
+            os.environ['PYTHONPATH'] = os.pathsep.join([p for p in [os.environ.get('PYTHONPATH'), w] if p])
     try:
         extdir, assumptions = prepare_extensions()
     except Exception as e:
